@@ -247,37 +247,59 @@ fn run_all(ctx: &mut Ctx) {
         Tier::Quick => Cfg::corners().into_iter().filter(|c| c.linear).collect(),
         Tier::Thorough => Cfg::full().into_iter().filter(|c| c.linear).collect(),
     };
+    // Configurations are visited in chunks (chunk-major order) and the databases of a finished chunk are
+    // dropped: 44 live databases cost ~3.7 GB per worker.
+    let chunk_len = tier.pick(cfgs.len(), 11);
+    let mut live_chunk = usize::MAX;
     // (i) MiniCairo programs (well-typed by construction) under every configuration
     let cases = crate::c01::all_cases(tier);
     let stride = tier.pick(5, 3);
-    for (k, case) in cases.iter().enumerate() {
-        // quick: every fifth program of the (already exhaustive) C01 space under all corner configs; thorough: all
-        if k % stride != 0 {
+    let nsnip_cfgs = tier.pick(2, cfgs.len());
+    let snips = snippets(tier);
+    for (ci, chunk) in cfgs.chunks(chunk_len).enumerate() {
+        for (k, case) in cases.iter().enumerate() {
+            // quick: every fifth program of the (already exhaustive) C01 space under all corner configs; thorough: every third
+            if k % stride != 0 {
+                continue;
+            }
+            ctx.case(
+                || json!({"space":"well-typed-programs","program":case.name,"cfg_chunk":ci}),
+                |ctx| {
+                    if live_chunk != ci {
+                        dbs = Dbs::default();
+                        live_chunk = ci;
+                    }
+                    let src = case.source();
+                    ctx.distinct(&src);
+                    for cfg in chunk {
+                        check_compiles(ctx, &mut dbs, &case.name, &src, cfg, true);
+                    }
+                },
+            );
+        }
+        // (iii) corpus snippets: error-free => compiles
+        let first = ci * chunk_len;
+        if first >= nsnip_cfgs {
             continue;
         }
-        ctx.case(
-            || json!({"space":"well-typed-programs","program":case.name}),
-            |ctx| {
-                let src = case.source();
-                ctx.distinct(&src);
-                for cfg in &cfgs {
-                    check_compiles(ctx, &mut dbs, &case.name, &src, cfg, true);
-                }
-            },
-        );
+        let snip_cfgs = &chunk[..chunk.len().min(nsnip_cfgs - first)];
+        for snip in &snips {
+            ctx.case(
+                || json!({"space":"corpus-snippets","snippet":snip.name,"cfg_chunk":ci}),
+                |ctx| {
+                    if live_chunk != ci {
+                        dbs = Dbs::default();
+                        live_chunk = ci;
+                    }
+                    ctx.distinct(&snip.code);
+                    for cfg in snip_cfgs {
+                        check_compiles(ctx, &mut dbs, &snip.name, &snip.code, cfg, false);
+                    }
+                },
+            );
+        }
     }
-    // (iii) corpus snippets: error-free => compiles
-    for snip in snippets(tier) {
-        ctx.case(
-            || json!({"space":"corpus-snippets","snippet":snip.name}),
-            |ctx| {
-                ctx.distinct(&snip.code);
-                for cfg in cfgs.iter().take(tier.pick(2, cfgs.len())) {
-                    check_compiles(ctx, &mut dbs, &snip.name, &snip.code, cfg, false);
-                }
-            },
-        );
-    }
+    dbs = Dbs::default();
     // (ii) ownership violations and their legal controls
     let mut own = use_after_move_programs();
     own.extend(missing_drop_programs());
